@@ -679,11 +679,11 @@ def unit(u: Tuple[Any, ...]) -> Part:
     elif kind == "situations":
         # one layer; every accessor's parameter absent / default only / explicit / malformed, the response-id table absent or
         # of every flavour (CAN + DoIP, CAN only, DoIP only), frame-size and baud-rate parameter varied independently
-        _, ltype = u
+        _, ltype, variant, tables = u
         table, frame, baud = GATE
         others = [x for x in ref.BASE if x not in GATE]
-        for variant in ("flat", "can-only", "doip-only"):
-            for with_table in ((True, False) if variant == "flat" else (True,)):
+        if True:
+            for with_table in tables:
                 for proto in ref.PROTOS:
                     for fs, bs, os_ in itertools.product(FRAME_SITUATIONS, SIMPLE_SITUATIONS, SIMPLE_SITUATIONS):
                         insts: List[Dict[str, Any]] = []
@@ -764,8 +764,9 @@ def plan(quick: bool) -> Tuple[List[Tuple[Any, ...]], Dict[str, Any], int]:
                             "frame_size_parameter": list(FRAME_SITUATIONS), "baud_rate_parameter": list(SIMPLE_SITUATIONS),
                             "other_simple_parameters": list(SIMPLE_SITUATIONS), "malformed_number": MALFORMED_NUMBER}
     for t in SITUATION_LAYERS:
-        units.append(("situations", t))
-        expect += 4 * 3 * len(FRAME_SITUATIONS) * len(SIMPLE_SITUATIONS) ** 2
+        for variant, tables in (("flat", (True,)), ("flat", (False,)), ("can-only", (True,)), ("doip-only", (True,))):
+            units.append(("situations", t, variant, tables))
+            expect += 3 * len(FRAME_SITUATIONS) * len(SIMPLE_SITUATIONS) ** 2
     # re-resolution after edits (one container per layer, both container orders)
     bounds["refresh_layers_given_and_omitted"] = 2
     bounds["refresh_layers_given_only"] = 3
@@ -777,6 +778,8 @@ def plan(quick: bool) -> Tuple[List[Tuple[Any, ...]], Dict[str, Any], int]:
             modes: Any = 2 if n <= 2 else (ref.M_GIVEN,)
             units.append(("refresh", n, hidx, modes, (True,) if (n == 3 and quick) else (False, True)))
             bounds["refresh_vectors"] = bounds.get("refresh_vectors", 0) + ref.n_placements(h[0], modes)
+    # the long units first (the pool hands units out in order; a long unit at the end would leave workers idle)
+    units.sort(key=lambda x: 0 if x[0] == "refresh" else 1 if x[0] == "situations" else 2)
     return units, bounds, expect
 
 
